@@ -237,6 +237,10 @@ const maxSlots = 1e4 // 10000
 // routes with targets whose share is smaller than one of maxSlots slots.
 const maxRingScale = 10
 
+// maxFineRingTargets is the number of targets up to which a route gets the
+// finer ring.
+const maxFineRingTargets = 1000
+
 // weighTargets computes the share of traffic each target receives based
 // on its weight and the weight of the other targets.
 //
@@ -365,7 +369,13 @@ func (r *Route) weighTargets() {
 	// all other targets (one target with a fixed weight of 99% and 200 dynamic
 	// targets: 9900 of 10100 slots = 98%). Use a ring which is a multiple of
 	// maxSlots then, fine enough for the smallest share (within limits).
-	if usedSlots > int(size) {
+	//
+	// The ring is rebuilt for every target that is added to the route: for
+	// routes with very many targets (they are what overflows the ring when
+	// there are more targets than slots) a ten times longer ring makes
+	// building the table ten times slower and cannot give every target its
+	// share anyway. They keep the coarse ring.
+	if usedSlots > int(size) && len(r.Targets) <= maxFineRingTargets {
 		minWeight := math.Inf(1)
 		for _, t := range r.Targets {
 			if t.Weight > 0 && t.Weight < minWeight {
